@@ -12,7 +12,6 @@ candidates switched on (`byteCompare`; without it a fragment whose size, checksu
 earlier one is deduplicated against it, which `specPack` — comparing bytes — does not do).
 -/
 import Sqfs.Proofs.BPSPAll
-import Sqfs.Props.C02
 namespace Sqfs.BlockProc
 open Sqfs.Consts
 open Sqfs.BlockWriter (hasFlag)
@@ -83,5 +82,73 @@ theorem packRef_eq_specPack (P : Params) (hc : CodecOk P.codec) (hpos : ∀ x z,
   · rw [applyEffs_table, hf2, hf1, hw2, hw1]
     simp only [Nat.zero_add] at hres
     exact hres
+
+/-- **`run_eq_specPack`** (the statement announced in `Props/C02.lean`, "towards `specPack`"): the implementation model on
+the serial pool — hence, by `Sqfs.C02.schedule_independent`, on every behaviour of the threaded pool — computes `specPack`
+for every `max_backlog`, with or without a `sync` before `end_file`. -/
+theorem run_eq_specPack (P : Params) (hP : P.ans = serialAns) (hc : CodecOk P.codec)
+    (hpos : ∀ x z, P.codec.cmp x = some z → 0 < z.length) (hbc : P.byteCompare = true) (hB0 : 0 < P.B) (hB : P.B < 2 ^ 24)
+    (mb : Nat) (files : List InFile) (hfl : ∀ f ∈ files, f.flags &&& Consts.blkUserSettable = f.flags) (sy : Bool) :
+    ∃ out, run P mb files sy = .ok out ∧
+      out.view = specView P.pre (Sqfs.Pack.specPack (toPackParams P) (toPackFiles files)) := by
+  rw [run_eq_packRef hP hc hB0 hB mb files sy]
+  exact packRef_eq_specPack P hc hpos hbc hB0 hB files hfl
+
+/-! ### non-vacuity -/
+
+/-- a codec that compresses exactly one block (`7 7 7 7 ↦ 7 4`) -/
+def spCodec : Codec :=
+  { cmp := fun x => if x = [7, 7, 7, 7] then some [7, 4] else none
+    unc := fun z => if z = [7, 4] then some [7, 7, 7, 7] else some z }
+
+theorem spCodec_ok : CodecOk spCodec ∧ ∀ x z, spCodec.cmp x = some z → 0 < z.length := by
+  refine ⟨⟨?_, ?_⟩, ?_⟩ <;>
+  · intro x z h
+    simp only [spCodec] at h ⊢
+    split at h
+    · simp only [Option.some.injEq] at h; subst h; rename_i hx; simp [hx]
+    · cases h
+
+/-- block size 4, a 3-byte prefix (the "super block") in front of the data area -/
+def spP : Params := { B := 4, codec := spCodec, h := fun d => d.foldl (fun a b => a * 31 + b.toUInt32) 7, pre := [9, 9, 9] }
+
+/-- 21 files: a tail end packed into a fragment block; `DONT_FRAGMENT`; an empty file; all-zero blocks and an all-zero tail
+(holes); `IGNORE_SPARSE`; fragment blocks that overflow (3-byte tails, block size 4); a tail deduplicated against an
+earlier fragment; `DONT_COMPRESS` (its own key); whole-file deduplication of data blocks, with truncation; compressed
+blocks; `DONT_DEDUPLICATE` twice, then the same tail without it; a `DONT_FRAGMENT` file shorter than a block, also all
+zero; `DONT_HASH` -/
+def spFiles : List InFile :=
+  [⟨0, [1, 2, 3, 4, 5, 6]⟩, ⟨blkDontFragment, [1, 2, 3, 4, 5, 6]⟩, ⟨0, []⟩, ⟨0, [0, 0, 0, 0, 0, 0]⟩, ⟨0, [0, 0]⟩,
+   ⟨blkIgnoreSparse, [0, 0, 0, 0, 0, 0]⟩, ⟨0, [1, 2, 3]⟩, ⟨0, [4, 5, 6]⟩, ⟨0, [1, 2, 3]⟩, ⟨blkDontCompress, [1, 2, 3]⟩,
+   ⟨blkDontFragment, [1, 2, 3, 4, 5, 6]⟩, ⟨blkDontFragment, [7, 7, 7, 7, 7, 7, 7, 7]⟩, ⟨0, [7, 7, 7, 7, 7, 7, 7, 7]⟩,
+   ⟨0, [7, 7, 7, 7, 7, 7, 7, 7, 7, 7, 7, 7]⟩, ⟨0, [7, 7, 7, 7]⟩, ⟨blkDontDeduplicate, [5, 6]⟩, ⟨blkDontDeduplicate, [5, 6]⟩,
+   ⟨0, [5, 6]⟩, ⟨blkDontFragment, [1, 2]⟩, ⟨blkDontFragment, [0, 0]⟩, ⟨blkDontHash, [1, 2, 3, 4, 1, 2]⟩]
+
+/-- the hypotheses of `packRef_eq_specPack` hold on the instance -/
+example : CodecOk spP.codec ∧ (∀ x z, spP.codec.cmp x = some z → 0 < z.length) ∧ spP.byteCompare = true ∧ 0 < spP.B ∧
+    spP.B < 2 ^ 24 ∧ ∀ f ∈ spFiles, f.flags &&& blkUserSettable = f.flags :=
+  ⟨spCodec_ok.1, spCodec_ok.2, rfl, by decide, by decide, by decide⟩
+
+/-- the conclusion, evaluated: 6 fragment blocks, a 48-byte output file, starts shared between files 1 and 10 and between
+files 11 … 14, holes in files 3, 4 and 19 -/
+example :
+    (packRef spP spFiles).toOption.map Output.view =
+      some (specView spP.pre (Sqfs.Pack.specPack (toPackParams spP) (toPackFiles spFiles))) ∧
+    (packRef spP spFiles).toOption.map (fun o => (o.frags.length, o.file.length)) = some (6, 48) ∧
+    (packRef spP spFiles).toOption.map (fun o => o.files.map (·.start)) =
+      some [3, 7, 0, 0, 0, 13, 0, 0, 0, 0, 7, 27, 27, 27, 27, 0, 0, 0, 36, 0, 38] ∧
+    (packRef spP spFiles).toOption.map (fun o => o.files.map (·.sparse)) =
+      some [0, 0, 0, 6, 2, 0, 0, 0, 0, 0, 0, 0, 0, 0, 0, 0, 0, 0, 0, 2, 0] := by
+  decide +kernel
+
+/-- `byteCompare` is needed: with the byte comparison off (`SQFS_BLOCK_PROCESSOR` created without a file to read back from)
+and a checksum that collides, the second tail is deduplicated against the first one; `specPack` compares bytes -/
+example :
+    let P : Params := { B := 4, codec := spCodec, h := fun _ => 0, byteCompare := false }
+    (packRef P [⟨0, [1, 2]⟩, ⟨0, [3, 4]⟩]).toOption.map (fun o => o.files.map (fun r => (r.fragIdx, r.fragOff))) =
+      some [(0, 0), (0, 0)] ∧
+    (Sqfs.Pack.specPack (toPackParams P) (toPackFiles [⟨0, [1, 2]⟩, ⟨0, [3, 4]⟩])).files.map (·.frag) =
+      [some (0, 0), some (0, 2)] := by
+  decide +kernel
 
 end Sqfs.BlockProc
